@@ -25,8 +25,8 @@ import (
 // as inconclusive, never as a violation).
 func init() {
 	Register("replicas", runReplicas)
-	RegisterPlan(Plan{Prop: "C08", Engine: "replicas", Quick: 24, Thorough: 360, Level: "exploration", MinCases: 12,
-		Rule: "12 workload families (ledger default/slash/keys/power/queues/exit/invalid, oracle, fees, authz, evmacct, live) x batches of 3-6 histories, each batch executed by 3 replica processes (GOMAXPROCS 16 / 1 / 3, time zones UTC / Asia/Kolkata / America/St_Johns, the third replica restarting the application object over the same database every 7 blocks where the family has no recorded restart finding); thorough adds a replica built with the race detector. Compared per step: transaction result code / gas wanted / gas used / data, validator updates, consensus-parameter updates, digest of all monitored stores, application hash of every block. Distinct = <family, replica environment> pairs whose traces were compared in full, plus the number of compared lines."})
+	RegisterPlan(Plan{Prop: "C08", Engine: "replicas", Quick: 26, Thorough: 390, Level: "exploration", MinCases: 13,
+		Rule: "13 workload families (ledger default/slash/keys/power/queues/exit/invalid, oracle, fees, authz, evmacct, live, avs) x batches of 3-6 histories, each batch executed by 3 replica processes (GOMAXPROCS 16 / 1 / 3, time zones UTC / Asia/Kolkata / America/St_Johns, the third replica restarting the application object over the same database every 7 blocks where the family has no recorded restart finding); thorough adds a replica built with the race detector. Compared per step: transaction result code / gas wanted / gas used / data, validator updates, consensus-parameter updates, digest of all monitored stores, application hash of every block. Distinct = <family, replica environment> pairs whose traces were compared in full, plus the number of compared lines."})
 }
 
 type replicaFamily struct {
@@ -51,6 +51,7 @@ var replicaFamilies = []replicaFamily{
 	{"authz", "C10", "authz", "", 3, false},
 	{"evmacct", "C19", "evmacct", "", 4, true},
 	{"live", "C11", "live", "", 4, false},
+	{"avs", "C20", "avs", "", 6, true},
 }
 
 type replicaEnv struct {
